@@ -166,7 +166,7 @@ type Scenario = fn();
 
 // ------------------------------------------------ waker replacement under threads
 
-fn counting_waker() -> (Waker, std::sync::Arc<AtomicUsize>) {
+fn plain_waker() -> (Waker, std::sync::Arc<AtomicUsize>) {
     struct CW(std::sync::Arc<AtomicUsize>);
     impl std::task::Wake for CW {
         fn wake(self: std::sync::Arc<Self>) {
@@ -184,9 +184,9 @@ fn counting_waker() -> (Waker, std::sync::Arc<AtomicUsize>) {
 /// lock shim uses in the scenarios tagged `wk:`), like the atomic reference count of a real
 /// task waker: code that handles wakers outside the critical section, or reads / writes a wait
 /// node around such a call without holding the lock, becomes interleavable there.
-fn sched_waker() -> (Waker, std::sync::Arc<AtomicUsize>) {
+fn counting_waker() -> (Waker, std::sync::Arc<AtomicUsize>) {
     if !WAKER_POINTS.load(Ordering::Relaxed) {
-        return counting_waker();
+        return plain_waker();
     }
     struct Inner {
         count: std::sync::Arc<AtomicUsize>,
@@ -224,9 +224,9 @@ fn sched_waker() -> (Waker, std::sync::Arc<AtomicUsize>) {
 /// its latest poll) and must complete when polled again.
 fn swap_check<F: Future>(prop: &str, what: &str, fut: F, spawn_enabler: impl FnOnce() -> loom::thread::JoinHandle<()>) {
     let mut fut = Box::pin(fut);
-    let (w1, _c1) = sched_waker();
-    let (w2, c2) = sched_waker();
-    let (w3, _c3) = sched_waker();
+    let (w1, _c1) = counting_waker();
+    let (w2, c2) = counting_waker();
+    let (w3, _c3) = counting_waker();
     if fut.as_mut().poll(&mut Context::from_waker(&w1)).is_ready() {
         spawn_enabler().join().unwrap();
         return;
@@ -1913,41 +1913,41 @@ fn timer_abandon() {
 }
 
 const SCENARIOS: &[(&str, &str, Scenario)] = &[
-    ("event_set_vs_abandon", "C01,C14", event_set_vs_abandon),
-    ("event_set_vs_abandon_tail", "C01,C14", event_set_vs_abandon_tail),
-    ("mpmc_close_vs_abandon", "C01,C11", mpmc_close_vs_abandon),
-    ("mpmc_close_vs_abandon_rev", "C01,C11", mpmc_close_vs_abandon_rev),
+    ("event_set_vs_abandon", "wk:C01,C14", event_set_vs_abandon),
+    ("event_set_vs_abandon_tail", "wk:C01,C14", event_set_vs_abandon_tail),
+    ("mpmc_close_vs_abandon", "wk:C01,C11", mpmc_close_vs_abandon),
+    ("mpmc_close_vs_abandon_rev", "wk:C01,C11", mpmc_close_vs_abandon_rev),
     ("bcast_clone_exclusive", "C12,C16", bcast_clone_exclusive),
     ("state_clone_exclusive", "C13,C16", state_clone_exclusive),
     ("mpmc_double_close", "hook:C11", mpmc_double_close),
-    ("mpmc_orphan_recv", "hook:C10,C11", mpmc_orphan_recv),
-    ("mpmc_orphan_send", "hook:C08,C10,C11", mpmc_orphan_send),
-    ("state_orphan_recv", "hook:C11,C13", state_orphan_recv),
-    ("bcast_orphan_recv", "hook:C11,C12", bcast_orphan_recv),
-    ("oneshot_orphan_recv", "hook:C11,C12", oneshot_orphan_recv),
-    ("state_send_vs_abandon", "C01,C13", state_send_vs_abandon),
-    ("state_send_vs_abandon_rev", "C01,C13", state_send_vs_abandon_rev),
-    ("bcast_send_vs_abandon", "C01,C12", bcast_send_vs_abandon),
-    ("bcast_send_vs_abandon_rev", "C01,C12", bcast_send_vs_abandon_rev),
-    ("mutex_barger_holds_fair", "C02,C03", mutex_barger_holds_fair),
-    ("mutex_barger_holds_unfair", "C02,C03", mutex_barger_holds_unfair),
-    ("sem_barger_holds_fair", "C05,C06", sem_barger_holds_fair),
-    ("sem_barger_holds_unfair", "C05,C06", sem_barger_holds_unfair),
+    ("mpmc_orphan_recv", "hook:wk:C10,C11", mpmc_orphan_recv),
+    ("mpmc_orphan_send", "hook:wk:C08,C10,C11", mpmc_orphan_send),
+    ("state_orphan_recv", "hook:wk:C11,C13", state_orphan_recv),
+    ("bcast_orphan_recv", "hook:wk:C11,C12", bcast_orphan_recv),
+    ("oneshot_orphan_recv", "hook:wk:C11,C12", oneshot_orphan_recv),
+    ("state_send_vs_abandon", "wk:C01,C13", state_send_vs_abandon),
+    ("state_send_vs_abandon_rev", "wk:C01,C13", state_send_vs_abandon_rev),
+    ("bcast_send_vs_abandon", "wk:C01,C12", bcast_send_vs_abandon),
+    ("bcast_send_vs_abandon_rev", "wk:C01,C12", bcast_send_vs_abandon_rev),
+    ("mutex_barger_holds_fair", "wk:C02,C03", mutex_barger_holds_fair),
+    ("mutex_barger_holds_unfair", "wk:C02,C03", mutex_barger_holds_unfair),
+    ("sem_barger_holds_fair", "wk:C05,C06", sem_barger_holds_fair),
+    ("sem_barger_holds_unfair", "wk:C05,C06", sem_barger_holds_unfair),
     ("mutex_fair_order", "C04", mutex_fair_order),
     ("sem_fair_order", "C07", sem_fair_order),
-    ("event_set_vs_reset", "C14", event_set_vs_reset),
-    ("event_setters_race", "C14", event_setters_race),
+    ("event_set_vs_reset", "wk:C14", event_set_vs_reset),
+    ("event_setters_race", "wk:C14", event_setters_race),
     ("mpmc_last_receiver_clears", "hook:C11", mpmc_last_receiver_clears),
-    ("mpmc_refill_race", "C09", mpmc_refill_race),
-    ("mpmc_cancel_vs_receive_cap0", "C01,C08", mpmc_cancel_vs_receive_cap0),
-    ("mpmc_cancel_vs_receive_cap1", "C01,C08", mpmc_cancel_vs_receive_cap1),
-    ("mpmc_notified_drop_contended", "C10", mpmc_notified_drop_contended),
-    ("mutex_notified_drop_contended_fair", "C03", mutex_notified_drop_contended_fair),
-    ("mutex_notified_drop_contended_unfair", "C03", mutex_notified_drop_contended_unfair),
-    ("sem_notified_drop_contended_fair", "C06", sem_notified_drop_contended_fair),
-    ("sem_notified_drop_contended_unfair", "C06", sem_notified_drop_contended_unfair),
+    ("mpmc_refill_race", "wk:C09", mpmc_refill_race),
+    ("mpmc_cancel_vs_receive_cap0", "wk:C01,C08", mpmc_cancel_vs_receive_cap0),
+    ("mpmc_cancel_vs_receive_cap1", "wk:C01,C08", mpmc_cancel_vs_receive_cap1),
+    ("mpmc_notified_drop_contended", "wk:C10", mpmc_notified_drop_contended),
+    ("mutex_notified_drop_contended_fair", "wk:C03", mutex_notified_drop_contended_fair),
+    ("mutex_notified_drop_contended_unfair", "wk:C03", mutex_notified_drop_contended_unfair),
+    ("sem_notified_drop_contended_fair", "wk:C06", sem_notified_drop_contended_fair),
+    ("sem_notified_drop_contended_unfair", "wk:C06", sem_notified_drop_contended_unfair),
     ("state_try_receive_contended", "C13", state_try_receive_contended),
-    ("timer_check_contended", "C15", timer_check_contended),
+    ("timer_check_contended", "wk:C15", timer_check_contended),
     ("swap_mutex_fair", "wk:C03", swap_mutex_fair),
     ("swap_mutex_unfair", "wk:C03", swap_mutex_unfair),
     ("swap_sem_fair", "wk:C06", swap_sem_fair),
